@@ -27,6 +27,8 @@ def build_exc(name):
     import termios
     if name == "KeyboardInterrupt":
         return KeyboardInterrupt()
+    if name == "SystemExit":
+        return SystemExit(143)      # what a SIGTERM handler calling sys.exit() raises
     if name == "OSError":
         return OSError(5, "simulated I/O error")
     if name == "EINTR":
